@@ -84,6 +84,15 @@ func setupVod(vod string) error {
 			}
 		}
 	}
+	// the shared catalogue of generated layouts (harness/lib/assetgen_layouts.go): real avc1/AAC/stpp
+	// media, $Number$ and $Time$, good, borderline (x_*) and inadmissible (bad_*) ones
+	for _, gl := range lib.GenCatalogue() {
+		a := gl.Asset
+		a.Name = "cat/" + a.Name
+		if err := lib.WriteAsset(vod, a); err != nil {
+			return fmt.Errorf("catalogue asset %s: %w", a.Name, err)
+		}
+	}
 	// modified copies of a bundled asset: a dropped and a duplicated segment file
 	for _, m := range []struct{ name, op string }{{"mod/dropV", "dropV"}, {"mod/dropA", "dropA"}, {"mod/dupV", "dupV"}} {
 		dst := filepath.Join(vod, m.name)
@@ -324,6 +333,17 @@ func runBundled(c *lib.Ctx, scratch string, rng *rand.Rand) (int, error) {
 		}
 		if !expectLeftOut[n] && !served["gen/"+n] {
 			c.Fail("B:scan:gen/"+n, "admission:left-out-although-"+n, "generated asset gen/"+n+" is well-formed but not served", in)
+		}
+	}
+	for _, gl := range lib.GenCatalogue() {
+		name := "cat/" + gl.Asset.Name
+		in := bundledInput{Part: "bundled", Instance: "scan", URL: name}
+		c.Count("B:catalogue:" + gl.Class)
+		if gl.Class == "ok" && !served[name] {
+			c.Fail("B:scan:"+name, "admission:left-out-although-catalogue-ok", "catalogue asset "+name+" ("+gl.Note+") is well-formed but not served", in)
+		}
+		if gl.Class == "bad" && served[name] {
+			c.Fail("B:scan:"+name, "admission:served-although-catalogue-bad", "catalogue asset "+name+" ("+gl.Note+") must be left out but is served", in)
 		}
 	}
 	sr := &synRunner{c: c, admit: map[string]int{}}
